@@ -370,17 +370,23 @@ Inductive cbody :=
 | CBvm (p : prog)
 | CStub (sc : stubcall)        (* promoted Stub method by name on a contract *)
 | CIbtp (p : prog)
+| CGrant (newadmin : N) (ok : bool)   (* the governance call that approves an admin registration *)
 | CBad.
 
 Record ctx := { c_from : N; c_nonce : N; c_body : cbody; c_invalid : bool }.
 
-Definition tx_of (c : xcfg) (t : ctx) : tx :=
+(** the admin grant of role.go: [GetAccount(id).AddBalance(genesis balance)] inside the concluding call *)
+Definition grant_body (e : fenv) (na : N) (ok : bool) : st -> prog :=
+  fun s => if ok then SetBal na (bal s na + genesis_bal e) Done else Fail false.
+
+Definition tx_of (c : xcfg) (e : fenv) (t : ctx) : tx :=
   {| tx_from := c_from t; tx_nonce := c_nonce t; tx_invalid := c_invalid t;
      tx_kind := match c_body t with
                 | CTransfer to amt => KTransfer to amt
                 | CBvm p => KBvm (fun _ => p)
                 | CStub sc => KBvm (fun _ => stub_prog c sc)
                 | CIbtp p => KIbtp (fun _ => p)
+                | CGrant na ok => KBvm (grant_body e na ok)
                 | CBad => KBad
                 end |}.
 
@@ -425,7 +431,7 @@ Definition cnt_eqb (a b : list counter_entry) : bool :=
   forallb (fun x => list_eqb cent_eqb (cnt_of_chain (fst x) a) (cnt_of_chain (fst x) b)) (a ++ b).
 
 Definition xmodel_matches (c : xcfg) (k : xcase) : bool :=
-  let '(s', rcs, cnt) := exec_block c (xc_env k) (st_of k) (xc_pre k) (map (tx_of c) (xc_txs k)) in
+  let '(s', rcs, cnt) := exec_block c (xc_env k) (st_of k) (xc_pre k) (map (tx_of c (xc_env k)) (xc_txs k)) in
   list_eqb Bool.eqb (map r_ok rcs) (xc_recs k) &&
   forallb (fun p : key * option N => optN_eqb (store s' (fst p)) (snd p)) (xc_okeys k) &&
   forallb (fun p : N * Z => bal s' (fst p) =? snd p) (xc_obals k) &&
@@ -465,7 +471,7 @@ Fixpoint spec_chain (e : fenv) (b : bals) (n : N -> N) (ts : list ctx) : bals * 
   | [] => (b, n)
   | t :: r =>
       let s := mkSt (fun _ => None) b n (fun _ => None) 0%N [] [] in
-      let t' := tx_of xcfg_fixed t in
+      let t' := tx_of xcfg_fixed e t in
       spec_chain e (spec_bal e s t') (spec_nonce s t') r
   end.
 
@@ -484,4 +490,16 @@ Definition judge_frame (k : xcase) : verdict :=
   else if negb (p_store_b k) then V_propfalse (100 + i)%N
   else if negb (p_counter_b k) then V_propfalse (200 + i)%N
   else if negb (p_allfailed_b k) then V_propfalse (300 + i)%N
+  else if (i =? 0)%N then V_mismatch 0 else (0%N, i).
+
+(** C14 judge: the conservation and non-negativity predicates of [Model/Fees.v] on the
+    implementation's own balances first, then the correspondence with this model.
+    [grants]: genesis balance times the number of admin approvals with a SUCCESS receipt. *)
+Definition judge_native (grants : Z) (k : xcase) : verdict :=
+  let dom := map fst (xc_obals k) in
+  let b0 := of_alist (xc_bals k) in
+  let b1 := of_alist (xc_obals k) in
+  let i := xmatch_idx (xc_cfgs k) k 1%N in
+  if negb (conserve_b dom b0 b1 grants) then V_propfalse (100 + i)%N
+  else if negb (nonneg_b dom b1) && nonneg_b dom b0 then V_propfalse (200 + i)%N
   else if (i =? 0)%N then V_mismatch 0 else (0%N, i).
